@@ -197,7 +197,8 @@ class SymBool:
             return r
         return ~r if isinstance(r, SymBool) else (not r)
 
-    __hash__ = None
+    def __hash__(self):
+        return 0        # constant: dict / set key equality is then decided by the symbolic == (a path decision)
 
     # numeric view (True == 1)
     def _as_int(self):
@@ -266,7 +267,9 @@ def _ne(a, b): return a != b
 
 class _Num:
     __slots__ = ()
-    __hash__ = None
+
+    def __hash__(self):
+        return 0        # constant: dict / set key equality is then decided by the symbolic == (a path decision)
 
     def __lt__(self, o): return _cmp(self, o, _lt)
     def __le__(self, o): return _cmp(self, o, _le)
